@@ -122,6 +122,9 @@ pub fn run(ctx: &Ctx, rep: &mut Report) {
         ("mk = n => (() => n)\na = mk(1)\nb = mk(2)\n[a(), b()]", "[1, 2]"),
         ("f = (a) => (t = a) + 1\ng = (t) => f(t)\n[f(1), g(1)]", "[2, 2]"),
         ("k = 3\nadd = x => x + k\n[5] via (k => add(k))", "[8]"),
+        ("total = (total, x) => total + x\n[total(1, 2), reduce([1, 2, 3], total, 0)]", "[3, 6]"),
+        ("pair = (pair?, ...rest) => [pair, rest]\n[pair(), pair(1, 2)]", "[[null, []], [1, [2]]]"),
+        ("inner = do {\n  self = (self) => self\n  return self\n}\ninner(4)", "4"),
         ("fact = n => if n <= 1 then 1 else n * fact(n - 1)\nh = fact\n[h(5), map([5], h)[0], ([5] via h)[0]]", "[120, 120, 120]"),
         // (D3) names spelled like built-ins, read through the record shorthand
         ("mk = (sqrt) => (() => {sqrt})\ng = mk(1)\ng()", "{sqrt: 1}"),
